@@ -365,6 +365,31 @@ func runC16(r *report.Run) {
 	hist, trans, st := asmHistorySearch(d1, stage1, mk(true), r, 512)
 	h2, t2, s2 := asmHistorySearch(d2, deep, mk(false), r, 512)
 	hist, trans, st = hist+h2, trans+t2, st+s2
+	// flag sweep: the tracked flags travel with the clone whatever bits the tail touched -- REP/SEP and
+	// AssumeREP/AssumeSEP with all 256 masks in the clone (the alphabet above only has #$20)
+	var nf int64
+	for _, v := range deep {
+		for _, pat := range []string{"SEP(#$%02x)", "REP(#$%02x)", "AssumeSEP($%02x)", "AssumeREP($%02x)"} {
+			for mask := 0; mask < 256; mask++ {
+				names := []string{"AssumeSEP($cf)", fmt.Sprintf(pat, mask), "NOP"}
+				ops, err := opsByName(names)
+				if err != nil {
+					r.Violation("oracle-broken", err.Error(), nil)
+					continue
+				}
+				for split := 0; split <= 2; split++ {
+					for resume := split; resume <= 3; resume++ {
+						nf++
+						if d := c16RunFull(v, ops, split, resume, 0, 99, false, false); d != "" {
+							r.ViolationSized("unexplained:clone-append", fmt.Sprintf("%+v %v split %d resume %d: %s", v, names, split, resume, d), asmHistory{Variant: v, Ops: names, Capacity: 512, Split: split}, 3)
+						}
+					}
+				}
+			}
+		}
+	}
+	st += nf
+	r.Set("flag_sweep_cases", nf)
 	depth := fmt.Sprintf("%d (all %d variants, with Append capacity edges) and %d (2 variants)", d1, len(stage1), d2)
 	r.Set("states", st)
 	r.Set("transitions", trans)
@@ -374,7 +399,7 @@ func runC16(r *report.Run) {
 	r.Set("histories", hist)
 	r.Set("history_x_split_x_capacity_cases", st)
 	r.Set("bounds", map[string]interface{}{"history_depth": depth, "alphabet": len(asmAlphabet()), "constructor_variants": len(stage1), "splits": "every split point 0..n; at the first depth also every resume point (clone gets ops[split:resume], the rest is emitted after the Append directly, through a second Clone/Append, or before it through a clone of the clone)", "append_capacity_slack": []int{-1, 0, 1}})
-	r.Set("rule", "every call sequence up to the depth x every split point x every constructor variant: head into A, A.Clone, tail into the clone, A.Append(clone), compared with a direct emitter on Bytes/Len/PC/Flags/GetLabel/text and hex listings/Finalize outcome and finalized bytes; A is compared with its own snapshot before Append; at the first depth every scenario is also run with emitters that have no target buffer (NewEmitter(nil), Clone(nil)) and with clones that emit into the free tail of their parent's own buffer and the emitter keeps emitting after the Append (every resume point: directly, through a second Clone/Append, or nested through a clone of the clone) and must still equal the direct one; Append with remaining capacity exactly tail-1 must be refused leaving A unchanged, tail and tail+1 must succeed; non-trivial = split strictly inside or capacity-edge cases")
+	r.Set("rule", "every call sequence up to the depth x every split point x every constructor variant: head into A, A.Clone, tail into the clone, A.Append(clone), compared with a direct emitter on Bytes/Len/PC/Flags/GetLabel/text and hex listings/Finalize outcome and finalized bytes; A is compared with its own snapshot before Append; at the first depth every scenario is also run with emitters that have no target buffer (NewEmitter(nil), Clone(nil)) and with clones that emit into the free tail of their parent's own buffer and the emitter keeps emitting after the Append (every resume point: directly, through a second Clone/Append, or nested through a clone of the clone) and must still equal the direct one; a flag sweep puts REP/SEP/AssumeREP/AssumeSEP with every mask into the clone; Append with remaining capacity exactly tail-1 must be refused leaving A unchanged, tail and tail+1 must succeed; non-trivial = split strictly inside or capacity-edge cases")
 	r.Sample(asmHistory{Variant: variants[2], Ops: []string{"BNE(a)", "Label(b)", "JMP_abs(b)", "Label(a)"}, Capacity: 512, Split: 2})
 	r.Assume("Finalize error choice depends on Go map order: the two emitters must both fail or both succeed, the errors need not be equal")
 }
